@@ -119,6 +119,9 @@ func (e *tsEngine) Of(f *Func, x ast.Expr, depth int) TS {
 	if t == nil {
 		return TS{Top: true}
 	}
+	if tup, ok := t.(*types.Tuple); ok && tup.Len() > 0 {
+		t = tup.At(0).Type() // the value of a comma-ok expression
+	}
 	if !isInterface(t) {
 		return tsOf(typeName(t))
 	}
@@ -138,6 +141,15 @@ func (e *tsEngine) Of(f *Func, x ast.Expr, depth int) TS {
 			return e.Of(f, y.Args[0], depth+1)
 		}
 		return e.ofCall(f, y, 0, depth)
+	case *ast.IndexExpr:
+		// a lookup in a package-level table literal yields one of the literal's values (or the zero value: nil)
+		if tbl := tableLiteral(f, y.X); tbl != nil {
+			out := tsOf("nil")
+			for _, v := range tbl {
+				out = out.union(e.Of(f, v, depth+1))
+			}
+			return out
+		}
 	case *ast.TypeAssertExpr:
 		if y.Type != nil {
 			if tt := f.TypeOf(y.Type); tt != nil && !isInterface(tt) {
@@ -271,6 +283,8 @@ func (e *tsEngine) ofIdent(f *Func, id *ast.Ident, depth int) TS {
 						out = out.union(e.ofCall(f, call, i, depth+1))
 					} else if ta, ok := ast.Unparen(y.Rhs[0]).(*ast.TypeAssertExpr); ok && i == 0 {
 						out = out.union(e.Of(f, ta, depth+1))
+					} else if ix, ok := ast.Unparen(y.Rhs[0]).(*ast.IndexExpr); ok && i == 0 {
+						out = out.union(e.Of(f, ix, depth+1)) // v, ok := table[k]
 					} else {
 						out = TS{Top: true}
 					}
